@@ -15,7 +15,7 @@ from .model import Module, val_to_json, val_from_json
 PID = "C04"
 RULE = ("G1: valid encodings (reference DER/BER variants/UPER/OER, library XER) of generated values, mutated by a "
         "Hypothesis-drawn list of structure-aware edits (truncate, bit flip, byte set, insert/delete, BER length-field "
-        "edits +-1/x256/->0x80/->0xFF/->0x84ffffffff, tag swaps, splice of two encodings, XML tag renames); G3: random bytes; "
+        "edits +-1/x256/->0x80/->0xFF/->0x84ffffffff, damaged end-of-contents octets, edits of the last octets, tag swaps, splice of two encodings, XML tag renames); G3: random bytes; "
         "G2: coverage-guided libFuzzer target over every type and syntax of generated modules (c/fuzz_decode.c) with the "
         "reference encodings as seed corpus.  Oracle (in the driver / fuzz target, under ASan+UBSan with a wrapped "
         "allocator ledger): rc in {OK,WMORE,FAIL}, consumed <= size, the structure left behind is printed, validated, "
@@ -26,7 +26,8 @@ SYN = ["ber", "ber", "uper", "oer", "xer"]
 
 
 def strategy(mod, t, cfg, feats):
-    edit = st.tuples(st.sampled_from(["trunc", "flip", "set", "ins", "del", "len", "tag", "splice", "rand", "xmltag"]),
+    edit = st.tuples(st.sampled_from(["trunc", "flip", "set", "ins", "del", "len", "tag", "splice", "rand", "xmltag", "eoc",
+                                      "eoc", "tail"]),
                      st.integers(0, 1 << 20), st.integers(0, 255))
     return st.tuples(gen.values(mod, t, cfg), st.sampled_from(SYN), st.lists(st.integers(0, 1 << 16), max_size=20),
                      st.lists(edit, min_size=0, max_size=4), gen.values(mod, t, cfg))
@@ -123,6 +124,21 @@ def mutate(enc, edits, other_enc, syn):
             except (ref_ber.TLVError, IndexError):
                 if n:
                     b[a % n] = 0x80
+        elif kind == "eoc" and n:
+            # damage one end-of-contents marker (00 00) of an indefinite-length encoding: second or first octet
+            pos = [i for i in range(n - 1) if b[i] == 0 and b[i + 1] == 0]
+            if pos:
+                p = pos[a % len(pos)]
+                if (a >> 10) % 4 == 0:
+                    b[p] = c or 1
+                elif (a >> 10) % 4 == 1:
+                    del b[p + 1:p + 2]
+                else:
+                    b[p + 1] = c or 0x80
+            else:
+                b[-1] = c
+        elif kind == "tail" and n:
+            b[n - 1 - (a % min(n, 6))] = c
         elif kind == "tag" and n:
             b[a % n] = (b[a % n] & 0x20) | (c & 0xdf)
         elif kind == "splice" and other_enc:
